@@ -93,7 +93,7 @@ func genActions(r *Rng, n int, panicPct int) []Action {
 		case p < 25:
 			out = append(out, Action{0, r.Pick([]string{"X-A", "X-B", "X-A"}), r.Pick([]string{"1", "2", "x"})})
 		case p < 35:
-			out = append(out, Action{1, itoa([]int{200, 201, 202, 400, 500}[r.Intn(5)]), ""})
+			out = append(out, Action{1, itoa([]int{200, 201, 202, 400, 500, 204, 304}[r.Intn(7)]), ""})
 		case p < 65:
 			out = append(out, Action{2, genPayload(r), ""})
 		case p < 80:
